@@ -575,17 +575,22 @@ class SecopClient(ProxyClient):
                 self.txq.get(False)
         except Exception:
             pass
-        if self.io:
-            self.io.shutdown()
-        if self._txthread:
+        # read each attribute once: a worker thread ending at the same time
+        # (or a second disconnect) clears them concurrently
+        io = self.io
+        if io:
+            io.shutdown()
+        txthread = self._txthread
+        if txthread:
             self.txq.put(None)  # shutdown marker
-            self._txthread.join()
+            txthread.join()
             self._txthread = None
-        if self._rxthread:
-            self._rxthread.join()
+        rxthread = self._rxthread
+        if rxthread:
+            rxthread.join()
             self._rxthread = None
-        if self.io:
-            self.io.disconnect()
+        if io:
+            io.disconnect()
         self.io = None
         # abort pending requests early
         try:  # avoid race condition
